@@ -8,6 +8,7 @@ from . import ops
 RLIMIT = 40_000_000        # resource limit per query (deterministic, load independent)
 TIMEOUT_MS = 30_000        # wall-clock safety net only
 FEAS_RLIMIT = 3_000_000
+FEAS_TIMEOUT_MS = 2_500
 
 
 class PathEnd(Exception):
@@ -117,6 +118,41 @@ def term_symbols(t):
             stack.extend(x.children())
     _SYMS_CACHE[key] = (t, frozenset(out))
     return _SYMS_CACHE[key][1]
+
+
+_STRUCT_CACHE = {}
+
+
+def structural_symbols(t):
+    """uninterpreted symbols of t, not looking inside byte-string arguments of length-agnostic uninterpreted functions"""
+    key = t.get_id()
+    r = _STRUCT_CACHE.get(key)
+    if r is not None:
+        return r[1]
+    out = set()
+    seen = set()
+    stack = [t]
+    while stack:
+        x = stack.pop()
+        i = x.get_id()
+        if i in seen:
+            continue
+        seen.add(i)
+        if z3.is_quantifier(x):
+            stack.append(x.body())
+            continue
+        if z3.is_app(x):
+            d = x.decl()
+            if d.kind() == z3.Z3_OP_UNINTERPRETED:
+                out.add(d.name())
+                if d.name() in ops.LENGTH_AGNOSTIC:
+                    for ch in x.children():
+                        if ch.sort().kind() != z3.Z3_SEQ_SORT:
+                            stack.append(ch)
+                    continue
+            stack.extend(x.children())
+    _STRUCT_CACHE[key] = (t, frozenset(out))
+    return _STRUCT_CACHE[key][1]
 
 
 def content_symbols(t):
@@ -264,12 +300,13 @@ class Ctx:
 
     def active_links(self, extra):
         """Length(t) = n for every companion-length term t whose CONTENT is constrained somewhere in the path
-        condition or the query; the others are dropped (their content is arbitrary: only the length matters)"""
+        condition or the query; the others are dropped (their content is arbitrary: only the length matters).
+        Occurrences as a direct argument of a length-agnostic uninterpreted function (ops.LENGTH_AGNOSTIC) do not count."""
         allsyms = set()
         for c in self.pc:
-            allsyms |= term_symbols(c)
+            allsyms |= structural_symbols(c)
         for e in extra:
-            allsyms |= term_symbols(e)
+            allsyms |= structural_symbols(e)
         out = []
         for t, n, sy in self.links:
             if sy & allsyms:
@@ -301,7 +338,7 @@ class Ctx:
         sel = [c for (c, _), ch in zip(items, chosen) if ch]
         return sel, len(sel) == len(items)
 
-    def _check(self, extra, rlimit, full=False):
+    def _check(self, extra, rlimit, full=False, timeout_ms=None):
         self.drain_facts()
         self.queries += 1
         t0 = time.time()
@@ -310,13 +347,14 @@ class Ctx:
         else:
             sel, complete = self._relevant(extra)
         s = z3.Solver()
-        s.set('timeout', TIMEOUT_MS)
+        tmo = timeout_ms or TIMEOUT_MS
+        s.set('timeout', tmo)
         s.set('rlimit', rlimit)
         for c in sel:
             s.add(c)
         # hard wall-clock stop: some theory loops ignore the soft timeout
         import threading
-        wd = threading.Timer(TIMEOUT_MS / 1000.0 + 5, lambda: s.ctx.interrupt())
+        wd = threading.Timer(tmo / 1000.0 + 5, lambda: s.ctx.interrupt())
         wd.daemon = True
         wd.start()
         try:
@@ -334,7 +372,9 @@ class Ctx:
         return r
 
     def feasible(self, t):
-        r = self._check([t], FEAS_RLIMIT)
+        # a feasibility answer of `unknown` is as good as `sat` here (the path is explored): keep these cheap, since a
+        # `sat` answer may require the solver to build very long byte strings
+        r = self._check([t], FEAS_RLIMIT, timeout_ms=FEAS_TIMEOUT_MS)
         return r != z3.unsat
 
     def branch(self, cond):
